@@ -19,6 +19,8 @@ import Bermuda.Model.FrameDF
 import Bermuda.Lemmas.FrameRichDisagg
 import Bermuda.Lemmas.FrameParse
 import Bermuda.Lemmas.FrameArrayFull
+import Bermuda.Lemmas.FrameRows
+import Bermuda.Lemmas.FrameMatrixTotal
 namespace Bermuda.Properties.C14
 open Bermuda Bermuda.Frame Bermuda.Spec.C14
 
@@ -629,15 +631,6 @@ theorem staticsFrame_example :
 
 /-! ### The in-memory data frames (no CSV text in between) -/
 
-theorem firstIsIncremental_false_of_cum {t : List Cell} (h : ∀ c ∈ t, c.kind ≠ .incremental ∧ c.prev = none) :
-    firstIsIncremental t = false := by
-  cases t with
-  | nil => rfl
-  | cons c rest =>
-    have := (h c List.mem_cons_self).1
-    simp only [firstIsIncremental]
-    cases hk : c.kind <;> simp_all
-
 /-- **wide data frame, cumulative**: `from_wide_data_frame(to_wide_data_frame(t), …)` passes the readers'
 column-type check and is the CSV round trip of `fromWide_toWide` (same rows, no text layer). -/
 theorem fromWideFrame_toWideFrame {t : List Cell} {D L : List String} (h : WFwide t D L) :
@@ -870,6 +863,254 @@ theorem arrayBuilder_spec (f1 f2 : ArrayFrame) (n1 n2 : String) (pr er : Option 
       arrayTriangleBuilder fs ns pr er fe md = .error .valueError) :=
   ⟨arrayTriangleBuilder_one f1 n1 pr er fe md, arrayTriangleBuilder_two f1 f2 n1 n2 pr er fe md,
    fun fs ns h => arrayTriangleBuilder_mismatch fs ns pr er fe md h⟩
+
+
+/-! ### Audit follow-up: row counts stated on the cells, totality of the index inference, inhabitants -/
+
+/-- **rows_count_wide_scenarios**: the wide table has `Σ scenarioCount c` rows — `scenarioCount` is stated on
+the cell alone (1 for scalars, S for S-sample arrays), not through the writer's helpers — and the rows are,
+in order, the images of the (cell, scenario) pairs `Spec.cellScenarios t`; the row of `(c, i)` carries the
+group key of `c` (injective on the cells: `cellKey_inj`) and scenario `i + 1` while the scenario column is
+kept, which is dropped only when every cell has one scenario: rows ↔ (cell, scenario) one to one. -/
+theorem rows_count_wide_scenarios {t : List Cell} {D L : List String} (h : WFwide t D L) :
+    ∃ (tb : Table) (E : Row → Row), toWideRows t = .ok tb ∧
+      tb.rows = (cellScenarios t).map (wideRowOf t E) ∧ tb.rows.length = wideRows t ∧
+      (∀ p ∈ cellScenarios t, p.1 ∈ t ∧ ∀ cols : List String,
+        (∀ k ∈ ["period_start", "period_end", "evaluation_date"], cols.contains k = true) →
+        wideKey cols D L (wideRowOf t E p) = cellKey p.1 D L) ∧
+      ((E = id ∧ ∀ p ∈ cellScenarios t, Row.col (wideRowOf t E p) "scenario" = MVal.num ((p.2 + 1 : Nat) : Rat)) ∨
+        ∀ c ∈ t, scenarioCount c = 1) :=
+  Frame.wide_rows_listing h
+
+/-- **rows_count_long_scenarios**: the long table has `Σ scenarioCount c · #fields c` rows, in order the images
+of the (cell, scenario, field) triples `Spec.cellScenarioFields t` -/
+theorem rows_count_long_scenarios {t : List Cell} {DK LK : List String} (h : WFlong t DK LK) :
+    ∃ (tb : Table) (E : Row → Row), toLongRows t = .ok tb ∧
+      tb.rows = (cellScenarioFields t).map (longRowOf t E) ∧ tb.rows.length = longRows t :=
+  Frame.long_rows_listing h
+
+/-- the row-count Spec clause of the driver holds on the model's tables -/
+theorem rowCountSpec_on_model {t : List Cell} :
+    (∀ {D L : List String}, WFwide t D L → ∃ tb, toWideRows t = .ok tb ∧ rowCountSpec false t tb.rows.length = true) ∧
+    (∀ {DK LK : List String}, WFlong t DK LK → ∃ tb, toLongRows t = .ok tb ∧ rowCountSpec true t tb.rows.length = true) := by
+  constructor
+  · intro D L h
+    obtain ⟨tb, _, hok, _, hlen, _⟩ := Frame.wide_rows_listing h
+    exact ⟨tb, hok, by simp [rowCountSpec, hlen]⟩
+  · intro DK LK h
+    obtain ⟨tb, _, hok, _, hlen⟩ := Frame.long_rows_listing h
+    exact ⟨tb, hok, by simp [rowCountSpec, hlen]⟩
+
+/-- **matrixIndex_total**: `MatrixIndex.from_triangle` succeeds on every non-empty triangle with contiguous
+periods of `e` months and at least two evaluation months (with one the library refuses: "Must supply
+eval_resolution"); its resolutions are `e` and the gcd of the evaluation-month gaps. -/
+theorem matrixIndex_total {t : List Cell} {e : Int} (hne : t ≠ []) (hc : Contiguous t e)
+    (hev : ∃ a ∈ t, ∃ b ∈ t, monthToId a.ev ≠ monthToId b.ev) :
+    ∃ ix d, MatrixIndex.ofTriangle t = .ok ix ∧ evalDateResolution t = some d ∧
+      ix.expResolution = e ∧ ix.devResolution = d :=
+  Frame.ofTriangle_ok hne hc hev
+
+/-- **fromMatrix_toMatrix_default**: the default call `matrix_to_triangle(triangle_to_matrix(tri))` with NO
+hypothesis about the index — its inference succeeds (`matrixIndex_total`), `is_triangle_monthly` follows
+from `MonthCell`. Remaining hypotheses: the triangle is semi-regular as the library checks it, has two
+evaluation months, and one of the two inferred resolutions divides the other. -/
+theorem fromMatrix_toMatrix_default {t : List Cell} {e : Int} (hne : t ≠ [])
+    (hsorted : t.Pairwise (fun a b => Cell.cmp a b = .lt)) (hkinds : kindsConsistent t = true)
+    (hcell : ∀ c ∈ t, MonthCell c) (hc : Contiguous t e) (hs : isSemiRegular t = true)
+    (hev : ∃ a ∈ t, ∃ b ∈ t, monthToId a.ev ≠ monthToId b.ev)
+    (hd : ∀ d, evalDateResolution t = some d → d ∣ e ∨ e ∣ d) :
+    okAnd (backSpec t) ((toMatrix t).bind fromMatrix) = true := by
+  obtain ⟨ix, d, hix, hdd, he, hdr⟩ := Frame.ofTriangle_ok hne hc hev
+  exact fromMatrix_toMatrix_contiguous hne hsorted hkinds hcell hc (isMonthly_of_monthCell hcell) hs hix
+    (by rw [he, hdr]; exact hd d hdd)
+
+/-- … and the rich matrix default call likewise -/
+theorem fromRich_toRich_default {t : List Cell} {e : Int} (hne : t ≠ [])
+    (hsorted : t.Pairwise (fun a b => Cell.cmp a b = .lt)) (hkinds : kindsConsistent t = true)
+    (hcell : ∀ c ∈ t, MonthCell c) (hc : Contiguous t e)
+    (hev : ∃ a ∈ t, ∃ b ∈ t, monthToId a.ev ≠ monthToId b.ev)
+    (hd : ∀ d, evalDateResolution t = some d → d ∣ e ∨ e ∣ d) :
+    ∃ ix, MatrixIndex.ofTriangle t = .ok ix ∧
+      (toRich t).bind fromRich = .ok (t.filterMap (richBack ix.fields)) := by
+  obtain ⟨ix, d, hix, hdd, he, hdr⟩ := Frame.ofTriangle_ok hne hc hev
+  exact ⟨ix, hix, fromRich_toRich_contiguous hne hsorted hkinds hcell hc hix (by rw [he, hdr]; exact hd d hdd)⟩
+
+/-- the joint hypotheses of `fromMatrix_toMatrix_contiguous` / `_default` hold for the quarterly triangle
+`exQ` (with `contiguous_example`): sorted, one class, semi-regular, two evaluation months, both inferred
+resolutions 3 — so the theorem is not vacuous, the index exists and `OnGrid exQ ix` is inhabited -/
+theorem exQ_matrix_example :
+    exQ.Pairwise (fun a b => Cell.cmp a b = .lt) ∧ kindsConsistent exQ = true ∧ isMonthly exQ = true ∧
+    isSemiRegular exQ = true ∧ (∃ a ∈ exQ, ∃ b ∈ exQ, monthToId a.ev ≠ monthToId b.ev) ∧
+    (∃ ix, MatrixIndex.ofTriangle exQ = .ok ix ∧ ix.expResolution = 3 ∧ ix.devResolution = 3 ∧ OnGrid exQ ix) ∧
+    okAnd (backSpec exQ) ((toMatrix exQ).bind fromMatrix) = true := by
+  have hsorted : exQ.Pairwise (fun a b => Cell.cmp a b = .lt) := by
+    unfold exQ
+    simp only [List.pairwise_cons, List.mem_cons, List.not_mem_nil, or_false, forall_eq_or_imp, forall_eq,
+      List.Pairwise.nil, and_true, false_implies, implies_true]
+    decide +kernel
+  have hkinds : kindsConsistent exQ = true := by decide +kernel
+  have hper : periodsOf exQ = [(⟨2021, 4, 1⟩, ⟨2021, 6, 30⟩), (⟨2021, 7, 1⟩, ⟨2021, 9, 30⟩)] := by
+    unfold periodsOf
+    have he : (exQ.map fun c => (c.ps, c.pe)).eraseDups =
+        [((⟨2021, 4, 1⟩ : Date), (⟨2021, 6, 30⟩ : Date)), (⟨2021, 7, 1⟩, ⟨2021, 9, 30⟩)] := by decide +kernel
+    rw [he]
+    apply List.mergeSort_of_pairwise
+    simp only [List.pairwise_cons, List.mem_cons, List.not_mem_nil, or_false, forall_eq, List.Pairwise.nil,
+      and_true, false_implies, implies_true]
+    decide +kernel
+  have hsemi : isSemiRegular exQ = true := by
+    unfold isSemiRegular
+    rw [hper]
+    decide +kernel
+  have hev : ∃ a ∈ exQ, ∃ b ∈ exQ, monthToId a.ev ≠ monthToId b.ev :=
+    ⟨_, List.mem_cons_self, _, List.mem_cons_of_mem _ List.mem_cons_self, by decide⟩
+  have hevr : evalDateResolution exQ = some 3 := by
+    unfold evalDateResolution
+    have he : (exQ.map fun c => monthToId c.ev).eraseDups = [617, 620] := by decide +kernel
+    rw [he]
+    have hs : sortInts [617, 620] = [617, 620] := by
+      unfold sortInts
+      apply List.mergeSort_of_pairwise
+      simp
+    rw [hs]
+    decide
+  obtain ⟨hc, hcell⟩ := contiguous_example
+  obtain ⟨ix, d, hix, hdd, he, hdr⟩ := Frame.ofTriangle_ok (by decide) hc hev
+  have hd3 : d = 3 := by rw [hevr] at hdd; exact (Option.some.inj hdd).symm
+  have hdv : ix.devResolution ∣ ix.expResolution ∨ ix.expResolution ∣ ix.devResolution := by
+    rw [he, hdr, hd3]; left; exact Int.dvd_refl 3
+  refine ⟨hsorted, hkinds, isMonthly_of_monthCell hcell, hsemi, hev,
+    ⟨ix, hix, he, by rw [hdr, hd3],
+      matrixIndex_onGrid (by decide) hsorted hkinds hcell hc hix (matrixIndex_lags_of_dvd (by decide) hc hix hdv)⟩, ?_⟩
+  exact fromMatrix_toMatrix_contiguous (by decide) hsorted hkinds hcell hc (isMonthly_of_monthCell hcell) hsemi hix hdv
+
+
+/-! ### inhabitants of the remaining domains -/
+
+/-- two slices that differ only in `country`, a loss detail (so that `mergeLossDetails` matters), sampled -/
+def exLCell (ev : Date) (v : Val) (country : String) : Cell :=
+  { kind := .cumulative, ps := ⟨2020, 1, 1⟩, pe := ⟨2020, 12, 31⟩, ev := ev, values := [("paid_loss", v)],
+    md := { country := some country, lossDetails := [("peril", .str "wind")] } }
+
+def exL : List Cell :=
+  [exLCell ⟨2020, 12, 31⟩ (.arr false [2] [1, 2]) "DE", exLCell ⟨2021, 12, 31⟩ (.arr false [2] [3, 5/2]) "DE",
+   exLCell ⟨2020, 12, 31⟩ (.arr false [2] [7, 8]) "US"]
+
+theorem wflong_example : WFlong exL [] ["peril"] where
+  ne := by decide
+  sorted := by
+    unfold exL
+    simp only [List.pairwise_cons, List.mem_cons, List.not_mem_nil, or_false, forall_eq_or_imp, forall_eq,
+      List.Pairwise.nil, and_true, false_implies, implies_true]
+    decide +kernel
+  cum := by decide +kernel
+  dates := by decide +kernel
+  md := by
+    intro c hc
+    have hcanon : ∀ c ∈ exL, c.md.Canon := by decide +kernel
+    have hmd : ∀ c ∈ exL, c.md.details = [] ∧ c.md.lossDetails = [("peril", .str "wind")] ∧
+        c.md.riskBasis.isSome = true := by decide +kernel
+    obtain ⟨h1, h2, h3⟩ := hmd c hc
+    exact ⟨hcanon c hc, h3, by rw [h1]; decide, by rw [h2]; decide, by rw [h1]; decide, by rw [h2]; decide⟩
+  names := ⟨by decide, by
+    intro k hk
+    rcases hk with hk | hk
+    · cases hk
+    · simp only [List.mem_cons, List.not_mem_nil, or_false] at hk
+      subst hk
+      decide⟩
+  cells := by
+    intro c hc
+    have hv : ∀ c ∈ exL, sampleCount c = 2 ∧ Dict.keys c.values = ["paid_loss"] ∧
+        (c.values.all fun kv => (valData kv.2).map List.length == some 2) = true ∧ c.values ≠ [] := by decide +kernel
+    obtain ⟨h1, h2, h3, h4⟩ := hv c hc
+    rw [h1]
+    refine ⟨⟨by decide, ?_, by rw [h2]; decide, fun _ => h4⟩, h4⟩
+    intro kv hkv
+    have := List.all_eq_true.mp h3 kv hkv
+    simp only [beq_iff_eq] at this
+    cases hd : valData kv.2 with
+    | none => simp [hd] at this
+    | some data => exact ⟨data, rfl, by simpa [hd] using this⟩
+  inj := by decide +kernel
+
+/-- an incremental triangle with scalar values: one period, two evaluations, the previous dates chained -/
+def exICell (ev prev : Date) (v : Val) : Cell :=
+  { kind := .incremental, ps := ⟨2020, 1, 1⟩, pe := ⟨2020, 12, 31⟩, ev := ev, prev := some prev,
+    values := [("paid_loss", v)], md := { country := some "DE", details := [("coverage", .str "BI")] } }
+
+def exI : List Cell :=
+  [exICell ⟨2020, 12, 31⟩ ⟨2019, 12, 31⟩ (.int 100), exICell ⟨2021, 12, 31⟩ ⟨2020, 12, 31⟩ (.flt (5/2))]
+
+theorem wfwideIncr_example : WFwideIncr exI ["coverage"] [] where
+  ne := by decide
+  sorted := by
+    unfold exI
+    simp only [List.pairwise_cons, List.mem_cons, List.not_mem_nil, or_false, forall_eq, List.Pairwise.nil,
+      and_true, false_implies, implies_true]
+    decide +kernel
+  inc := by decide +kernel
+  dates := by decide +kernel
+  md := by
+    intro c hc
+    have hcanon : ∀ c ∈ exI, c.md.Canon := by decide +kernel
+    have hmd : ∀ c ∈ exI, c.md.details = [("coverage", .str "BI")] ∧ c.md.lossDetails = [] ∧
+        c.md.riskBasis.isSome = true := by decide +kernel
+    obtain ⟨h1, h2, h3⟩ := hmd c hc
+    exact ⟨hcanon c hc, h3, by rw [h1]; decide, by rw [h2]; decide, by rw [h1]; decide, by rw [h2]; decide⟩
+  names := by
+    have hF : allFields exI = ["paid_loss"] := by decide +kernel
+    rw [hF]
+    exact ⟨by unfold strictKeys; decide, by unfold strictKeys; decide, by decide, by decide, by decide⟩
+  cells := by
+    have hF : allFields exI = ["paid_loss"] := by decide +kernel
+    rw [hF]
+    intro c hc
+    have hv : ∀ c ∈ exI, Dict.keys c.values = ["paid_loss"] ∧
+        (c.values.all fun kv => (valData kv.2).map List.length == some 1) = true := by decide +kernel
+    obtain ⟨h2, h3⟩ := hv c hc
+    refine ⟨by decide, ?_, fun h => absurd h (by decide), by rw [h2]; decide⟩
+    intro kv hkv
+    have := List.all_eq_true.mp h3 kv hkv
+    simp only [beq_iff_eq] at this
+    cases hd : valData kv.2 with
+    | none => simp [hd] at this
+    | some data => exact ⟨data, rfl, by simpa [hd] using this⟩
+
+theorem wflongIncr_example : WFlongIncr exI ["coverage"] [] where
+  ne := by decide
+  sorted := wfwideIncr_example.sorted
+  inc := by decide +kernel
+  dates := by decide +kernel
+  md := by
+    intro c hc
+    have hcanon : ∀ c ∈ exI, c.md.Canon := by decide +kernel
+    have hmd : ∀ c ∈ exI, c.md.details = [("coverage", .str "BI")] ∧ c.md.lossDetails = [] ∧
+        c.md.riskBasis.isSome = true := by decide +kernel
+    obtain ⟨h1, h2, h3⟩ := hmd c hc
+    exact ⟨hcanon c hc, h3, by rw [h1]; decide, by rw [h2]; decide, by rw [h1]; decide, by rw [h2]; decide⟩
+  names := ⟨by decide, by
+    intro k hk
+    rcases hk with hk | hk
+    · simp only [List.mem_cons, List.not_mem_nil, or_false] at hk
+      subst hk
+      decide
+    · cases hk⟩
+  cells := by
+    intro c hc
+    have hv : ∀ c ∈ exI, sampleCount c = 1 ∧ Dict.keys c.values = ["paid_loss"] ∧
+        (c.values.all fun kv => (valData kv.2).map List.length == some 1) = true ∧ c.values ≠ [] := by decide +kernel
+    obtain ⟨h1, h2, h3, h4⟩ := hv c hc
+    rw [h1]
+    refine ⟨⟨by decide, ?_, by rw [h2]; decide, fun _ => h4⟩, h4⟩
+    intro kv hkv
+    have := List.all_eq_true.mp h3 kv hkv
+    simp only [beq_iff_eq] at this
+    cases hd : valData kv.2 with
+    | none => simp [hd] at this
+    | some data => exact ⟨data, rfl, by simpa [hd] using this⟩
+  one := by decide +kernel
+  inj := by decide +kernel
 
 
 end Bermuda.Properties.C14
